@@ -573,7 +573,7 @@ pub fn scenario_of(ctx: &Ctx, run: u64) -> Option<Scenario> {
             Some(Scenario::A(ScenarioA { script, knobs: Knobs { initial_hash_mb: Some(initial_hash), resend_position: run % 12 != 2, ..Knobs::default() }, clock_events: vec![], sched_seed: Rng::derive(ctx.seed, run, "c12.sched.base").next_u64(), schedule: None }))
         }
         "C14" => Some(Scenario::A(gen_c14(ctx, run))),
-        "C09" => Some(if run % 8 == 7 { Scenario::A(gen_c09_a(ctx, run)) } else { Scenario::B(gen_c09(ctx, run).base) }),
+        "C09" => Some(if run % 4 == 3 { Scenario::A(gen_c09_a(ctx, run)) } else { Scenario::B(gen_c09(ctx, run).base) }),
         "C19" if run % 10 == 8 => Some(Scenario::A(gen_c19_a(ctx, run))),
         "C19" => Some(Scenario::T(super::ttmodel::gen_tt(&mut Rng::derive(ctx.seed, run, "c19"), ctx.thorough(), run))),
         "C08" => Some(if run % 5 == 4 { Scenario::A(gen_c08_a(ctx, run)) } else { Scenario::B(gen_c08(ctx, run)) }),
@@ -894,12 +894,17 @@ pub fn gen_c08_a(ctx: &Ctx, run: u64) -> ScenarioA {
     let mut krng = Rng::derive(ctx.seed, run, "c08a.knobs");
     let knobs = gen_knobs(&mut krng);
     let mut script = Vec::new();
-    for _ in 0..rng.range(1, 5) {
-        if rng.chance(1, 5) {
+    for round in 0..rng.range(1, 5) {
+        if round > 0 && rng.chance(1, 4) {
+            // a new game on the position just analysed: the GUI sends the very same position line again
             script.push(Intent::UciNewGame);
+        } else {
+            if rng.chance(1, 5) {
+                script.push(Intent::UciNewGame);
+            }
+            let (fen, moves) = gen_position(&mut rng, true);
+            script.push(Intent::Position { fen, moves });
         }
-        let (fen, moves) = gen_position(&mut rng, true);
-        script.push(Intent::Position { fen, moves });
         match rng.below(4) {
             0 => {
                 script.push(Intent::Go(GoSpec::infinite()));
@@ -1035,8 +1040,8 @@ const C09_MAX_K: u64 = 160;
 
 pub fn run_c09(ctx: &Ctx, run: u64) -> RunReport {
     let mut rep = RunReport { run, ..Default::default() };
-    // one run in eight delivers a real `stop` command through the UCI loop instead
-    if run % 8 == 7 {
+    // one run in four delivers a real `stop` command through the UCI loop instead
+    if run % 4 == 3 {
         let sc = gen_c09_a(ctx, run);
         let out = run_a(&sc, false);
         let nontrivial = out.searches.iter().any(|s| s.first_stop.is_some());
